@@ -1,0 +1,21 @@
+//go:build verif
+
+// Contracts for the VC generator in /verif (comment-only). Safety sweep: every
+// evaluation function of the assembly package must be free of runtime faults
+// for every argument list; malformed arguments are reported by an explicit
+// panic(error) (a controlled raise that Plan.Execute recovers).
+
+package asm
+
+//@ unit asmsweep
+
+// Argument evaluation is opaque here: it returns any value (A-CB).
+//@ func evalArg
+//@   trusted
+//@ func evalValue
+//@   trusted
+
+// Assumed object invariant (A-FN): every *Fn that reaches evaluation was produced by NewFn from the function table, so Eval is set.
+//@ pred typeinv_Fn = self.Eval != nil
+
+//@ sweep raises [C20] ^[a-z][A-Za-z0-9]*$
